@@ -353,8 +353,16 @@ class Conic(Quadric):
         if any(tangent.contains(p) for p in [a, b, c, d]):
             raise IncidenceError("The supplied points cannot lie on the supplied tangent!")
 
-        a1, a2 = Line(a, c).meet(tangent).normalized_array, Line(b, d).meet(tangent).normalized_array
-        b1, b2 = Line(a, b).meet(tangent).normalized_array, Line(c, d).meet(tangent).normalized_array
+        def normalize(p: Point) -> np.ndarray:
+            # a point at infinity is divided by its first non-zero coordinate, so that the choice between
+            # the two solutions below does not depend on the representatives of the arguments
+            v = p.normalized_array
+            if p.isinf:
+                v = v / v[np.argmax(np.abs(v) > EQ_TOL_ABS)]
+            return v
+
+        a1, a2 = normalize(Line(a, c).meet(tangent)), normalize(Line(b, d).meet(tangent))
+        b1, b2 = normalize(Line(a, b).meet(tangent)), normalize(Line(c, d).meet(tangent))
 
         o = tangent.general_point.array
 
